@@ -184,10 +184,9 @@ Fixpoint drop_all (s : st) (gs : list gid) : st * bool :=
 Definition live_gids (q : list wrec) : list gid :=
   flat_map (fun w => match w_gen w with Some g => [g] | None => [] end) q.
 
-(* heap ties: the order in which the coroutines woken together are appended
-   is read from the execution log (first those that the log shows, in that
-   order, then the others - they are dropped before they run, so their
-   order is immaterial) *)
+(* The popped records come out by increasing deadline.  Heap ties: among
+   coroutines with the same deadline the order is read from the execution
+   log (first those that the log shows, in that order, then the others). *)
 Definition log_gids (log : list entry) : list gid := map (fun e => fst (fst e)) log.
 
 Fixpoint dedup (l : list Z) : list Z :=
@@ -206,10 +205,16 @@ Definition dl_of (q : list wrec) (g : gid) : Z :=
   | None => 0
   end.
 
-Fixpoint nondecr (l : list Z) : bool :=
+(* stable insertion sort by key *)
+Fixpoint insert_by (key : gid -> Z) (x : gid) (l : list gid) : list gid :=
   match l with
-  | x :: ((y :: _) as l') => (x <=? y) && nondecr l'
-  | _ => true
+  | [] => [x]
+  | y :: l' => if key y <? key x then y :: insert_by key x l' else x :: l
+  end.
+Fixpoint sort_by (key : gid -> Z) (l : list gid) : list gid :=
+  match l with
+  | [] => []
+  | x :: l => insert_by key x (sort_by key l)
   end.
 
 Definition set_timer s t := mkSt (gens s) (active s) (waitq s) (killq s) (proms s) (pv s) t (nrid s) (pcs s) (gdone s).
@@ -217,8 +222,7 @@ Definition set_waitq s q := mkSt (gens s) (active s) q (killq s) (proms s) (pv s
 Definition set_active s a := mkSt (gens s) a (waitq s) (killq s) (proms s) (pv s) (timer s) (nrid s) (pcs s) (gdone s).
 
 (* if len(wait_queue) > 0: timer += dt; pop every record with deadline <= timer ...;
-   if the queue is empty now: timer = 0.
-   None: the wake order shown by the log is impossible for a priority queue. *)
+   if the queue is empty now: timer = 0. *)
 Definition wake (s : st) (dt : Z) (log : list entry) : option (st * bool) :=
   match waitq s with
   | [] => Some (s, false)
@@ -229,9 +233,7 @@ Definition wake (s : st) (dt : Z) (log : list entry) : option (st * bool) :=
       let lg := live_gids popped in
       let killed := filter (fun g => memz g (killq s)) lg in
       let woken := filter (fun g => negb (memz g (killq s))) lg in
-      let ordered := order_by_log log woken in
-      let shown := filter (fun g => memz g (log_gids log)) ordered in
-      if negb (nondecr (map (dl_of popped) shown)) then None else
+      let ordered := sort_by (dl_of popped) (order_by_log log woken) in
       let s1 := set_waitq (set_timer s tm) rest in
       let '(s2, e) := drop_all s1 killed in
       if e then Some (s2, true) else
